@@ -37,6 +37,11 @@ func randomCases(e *lib.Env, off func(string) bool) []*pcase {
 		fs = append(fs, syntacticFeatures(src)...)
 		out = append(out, &pcase{Name: fmt.Sprintf("gen/%d", i), Family: "gen", Rel: fmt.Sprintf("gen/g%05d.php", i), Src: src, Features: fs})
 	}
+	r3 := e.Rand("lit")
+	for i := 0; i < e.Pick(60, 800); i++ {
+		src := genLiteralProgram(r3, i)
+		out = append(out, &pcase{Name: fmt.Sprintf("lit/%d", i), Family: "lit", Rel: fmt.Sprintf("lit/l%05d.php", i), Src: src, Features: append([]string{"literal"}, syntacticFeatures(src)...)})
+	}
 	r2 := e.Rand("cls")
 	for i := 0; i < nCls; i++ {
 		src, fs := genClassProgram(r2, i, off)
